@@ -13,3 +13,72 @@ package pe
 //@   loop 2 invariant true
 //@   loop 3 invariant true
 //@   loop 4 invariant true
+
+// ---- C12: the verifier accepts a submission only if it equals what matching itself selects ----
+
+//@ func (PresentationSubmission).Resolve
+//@   prop C12
+//@   assume-benign
+//@ func (PresentationDefinition).CredentialsRequired
+//@   prop C12
+//@   pure heap
+//@ func (PresentationDefinition).PresentationSubmissionBuilder
+//@   prop C12
+//@   modifies nothing
+//@   ensures [empty-builder-for-this-definition] len(result.holders) == 0 && len(result.wallets) == 0 && same(result.presentationDefinition, presentationDefinition)
+//@ func (*PresentationSubmissionBuilder).AddWallet
+//@   prop C12
+//@   modifies *b, *b.holders, *b.wallets
+//@   ensures [one-more-wallet] len(b.holders) == old(len(b.holders)) + 1 && len(b.wallets) == old(len(b.wallets)) + 1 && same(b.presentationDefinition, old(b.presentationDefinition))
+//@ func (PresentationDefinition).Match
+//@   prop C12
+//@   assume-benign
+//@ func credential.PresentationSigner
+//@   trusted
+//@   benign
+//@   ensures isNilIface(result.1) <==> result.0 != nil
+//@ func uuid.New
+//@   trusted
+//@   benign
+//@ func (uuid.UUID).String
+//@   trusted
+//@   pure
+
+// The wallet side: the selection handed out is exactly what Match returned for the first wallet it
+// succeeded on - credentials and descriptor map together; with no matching wallet an error is reported
+// unless the definition requires no credentials (then the selection is empty, never partial).
+//@ func (*PresentationSubmissionBuilder).Build
+//@   prop C12
+//@   requires len(b.wallets) == len(b.holders)
+//@   loop 1 invariant selectedDID == nil && len(b.wallets) == len(b.holders)
+//@   loop 1 invariant !did(call (PresentationDefinition).Match #1) || !isNilIface(ret(call (PresentationDefinition).Match #1).2)
+//@   ensures [selection-is-what-matching-returned] isNilIface(result.2) && did(call (PresentationDefinition).Match #1) && isNilIface(ret(call (PresentationDefinition).Match #1).2) ==>
+//@        result.1.VerifiableCredentials == ret(call (PresentationDefinition).Match #1).0 && result.1.Mappings == ret(call (PresentationDefinition).Match #1).1
+//@        && result.0.DescriptorMap == ret(call (PresentationDefinition).Match #1).1 && result.0.DefinitionId == b.presentationDefinition.Id
+//@        && same(arg(call (PresentationDefinition).Match #1, 0), b.presentationDefinition)
+//@   ensures [dbg1] isNilIface(result.2) && !did(call (PresentationDefinition).Match #1) ==> did(call (PresentationDefinition).CredentialsRequired #1)
+//@   ensures [dbg2] isNilIface(result.2) && !did(call (PresentationDefinition).Match #1) ==> ret(call (PresentationDefinition).CredentialsRequired #1) == false
+//@   ensures [dbg3] isNilIface(result.2) && did(call (PresentationDefinition).Match #1) && !isNilIface(ret(call (PresentationDefinition).Match #1).2) ==> false
+//@   ensures [no-partial-selection] isNilIface(result.2) && !(did(call (PresentationDefinition).Match #1) && isNilIface(ret(call (PresentationDefinition).Match #1).2)) ==>
+//@        did(call (PresentationDefinition).CredentialsRequired #1) && ret(call (PresentationDefinition).CredentialsRequired #1) == false && len(result.1.VerifiableCredentials) == 0 && len(result.0.DescriptorMap) == 0
+
+// The verifier side: a non-empty envelope is accepted only if the submission's paths resolved inside
+// this envelope (Resolve), the builder was fed exactly the signer and credentials of every presentation
+// of the envelope, Build (i.e. Match) produced a selection, the two maps have the same size and every
+// expected descriptor is mapped to a credential with the same raw form - the result is the expected map.
+//@ func (PresentationSubmission).Validate
+//@   prop C12 C19
+//@   loop 1 invariant !did(call credential.PresentationSigner #1) || isNilIface(ret(call credential.PresentationSigner #1).1)
+//@   loop 1 invariant len(submissionBuilder.wallets) == len(submissionBuilder.holders) && same(submissionBuilder.presentationDefinition, definition)
+//@   loop 2 invariant true
+//@   loop 3 invariant !did(call (vc.VerifiableCredential).Raw #2) || ret(call (vc.VerifiableCredential).Raw #1) == ret(call (vc.VerifiableCredential).Raw #2)
+//@   call (*PresentationSubmissionBuilder).AddWallet #1 requires [wallet-is-the-signer-and-credentials-of-this-presentation]
+//@        isNilIface(ret(call credential.PresentationSigner #1).1) && same(arg(call credential.PresentationSigner #1, 0), presentation)
+//@        && same(arg(1), *ret(call credential.PresentationSigner #1).0) && arg(2) == presentation.VerifiableCredential
+//@        && same(arg(0).presentationDefinition, definition)
+//@   call (*PresentationSubmissionBuilder).Build #1 requires [built-from-every-presentation-for-this-definition] $done1 && same(arg(0).presentationDefinition, definition)
+//@   ensures [accepted-only-if-equal-to-what-matching-selects] isNilIface(result.1) && len(envelope.Presentations) > 0 ==> $done1 && $done2 && $done3
+//@        && isNilIface(ret(call (PresentationSubmission).Resolve #1).1) && same(arg(call (PresentationSubmission).Resolve #1, 1), envelope) && same(arg(call (PresentationSubmission).Resolve #1, 0), s)
+//@        && isNilIface(ret(call (*PresentationSubmissionBuilder).Build #1).2)
+//@        && len(ret(call (PresentationSubmission).Resolve #1).0) == len(result.0)
+//@   ensures [empty-envelope-only-if-nothing-is-required] isNilIface(result.1) && len(envelope.Presentations) == 0 ==> !definition.CredentialsRequired() && isNilIface(ret(call (PresentationSubmission).Resolve #1).1)
